@@ -73,7 +73,7 @@ class Dev:
         if self.mode != "short":
             return n
         self.fresh += 1
-        k = z3.BitVec("%s_k%d_%s" % (self.name, self.fresh, what), 64)
+        k = narrow_k("%s_k%d_%s" % (self.name, self.fresh, what), n)
         I.path.assume(z3.And(z3.UGE(k, U64(1)), z3.ULE(k, n)))
         return k
 
@@ -164,8 +164,18 @@ class SinkDev:
 class SrcDev:
     """A `dyn Read` source with symbolic content/length (blob input); `chunk` mode hands out arbitrary pieces."""
 
-    def __init__(self, name, content, mode="total"):
+    def __init__(self, name, content, mode="total", max_short=2):
         self.name, self.content, self.pos, self.mode, self.fresh = name, content, U64(0), mode, 0
+        self.max_short = max_short      # bound: only the first max_short reads may be short
+
+
+def narrow_k(name, request_len):
+    """fresh transfer count k <= request_len; declared narrow when the request length is a small constant"""
+    rl = z3.simplify(request_len)
+    if z3.is_bv_value(rl) and rl.as_long() < (1 << 16):
+        bits = max(1, rl.as_long().bit_length())
+        return z3.ZeroExt(64 - bits, z3.BitVec(name, bits))
+    return z3.BitVec(name, 64)
 
 
 def deref_dev(v):
@@ -197,6 +207,10 @@ def as_slice(I, v):
 # ---------------------------------------------------------------------------------------------- generic read/write loops
 def generic_write(I, recv, sl):
     """<X as Write>::write for an arbitrary receiver value"""
+    from .absmodel import AbsWriter, deref_abs
+    a = deref_abs(recv)
+    if isinstance(a, AbsWriter):
+        return a.write(I, sl)
     d = deref_dev(recv)
     if isinstance(d, Dev):
         return d.write(I, sl)
@@ -213,6 +227,10 @@ def generic_write(I, recv, sl):
 
 
 def generic_read(I, recv, sl):
+    from .absmodel import AbsReader, deref_abs
+    a = deref_abs(recv)
+    if isinstance(a, AbsReader):
+        return a.read(I, sl)
     d = deref_dev(recv)
     if isinstance(d, Dev):
         return d.read(I, sl)
@@ -237,9 +255,9 @@ def src_read(I, d, sl):
     if I.path.decide(want == U64(0)):
         return OkV(U64(0))
     k = want
-    if d.mode == "short":
+    if d.mode == "short" and d.fresh < d.max_short:
         d.fresh += 1
-        k = z3.BitVec("%s_k%d" % (d.name, d.fresh), 64)
+        k = narrow_k("%s_k%d" % (d.name, d.fresh), n)
         I.path.assume(z3.And(z3.UGE(k, U64(1)), z3.ULE(k, want)))
     dst = sl.bufloc.get()
     p = d.pos
@@ -270,6 +288,10 @@ MAX_CHUNKS = 6
 
 def write_all(I, recv, sl):
     """std default Write::write_all: loop until the buffer is consumed; Ok(0) -> WriteZero; Interrupted -> retry"""
+    from .absmodel import AbsWriter, deref_abs
+    a = deref_abs(recv)
+    if isinstance(a, AbsWriter):
+        return a.write_all(I, sl)       # contract of write_all on the page layer (C11 'write_all from INV state')
     cur = sl
     for _ in range(MAX_CHUNKS + 4):
         if I.path.decide(cur.length == U64(0)):
@@ -658,9 +680,51 @@ def m_usize_checked(I, m, argv, fr, dest, c):
     return NotImplemented
 
 
+def m_int_method(I, m, argv, fr, dest, c):
+    ty, meth = m.group("t"), m.group("m")
+    signed = ty.startswith("i")
+    a = argv[0]
+    b = argv[1] if len(argv) > 1 else None
+    w = a.size()
+    if b is not None and z3.is_bv(b) and b.size() != w:
+        b = z3.ZeroExt(w - b.size(), b) if b.size() < w else z3.Extract(w - 1, 0, b)
+    if meth == "wrapping_add":
+        return a + b
+    if meth == "wrapping_sub":
+        return a - b
+    if meth == "wrapping_mul":
+        return a * b
+    if meth in ("saturating_add", "checked_add", "overflowing_add"):
+        ovf = z3.Not(z3.BVAddNoOverflow(a, b, signed))
+        if signed:
+            ovf = z3.Or(ovf, z3.Not(z3.BVAddNoUnderflow(a, b)))
+        res = a + b
+    elif meth in ("saturating_sub", "checked_sub", "overflowing_sub"):
+        ovf = z3.Or(z3.Not(z3.BVSubNoOverflow(a, b)), z3.Not(z3.BVSubNoUnderflow(a, b, True))) if signed else z3.ULT(a, b)
+        res = a - b
+    elif meth in ("saturating_mul", "checked_mul", "overflowing_mul"):
+        ovf = z3.Not(z3.BVMulNoOverflow(a, b, signed))
+        if signed:
+            ovf = z3.Or(ovf, z3.Not(z3.BVMulNoUnderflow(a, b)))
+        res = a * b
+    else:
+        return NotImplemented
+    if meth.startswith("checked"):
+        if I.path.decide(ovf):
+            return NoneV()
+        return SomeV(res)
+    if meth.startswith("overflowing"):
+        return Agg("tuple", [res, ovf])
+    if signed:
+        raise Inconclusive("signed saturating op")
+    sat = z3.BitVecVal((1 << w) - 1, w) if "add" in meth or "mul" in meth else z3.BitVecVal(0, w)
+    return z3.If(ovf, sat, res)
+
+
 def build_models():
     R = re.compile
-    M = [
+    from .absmodel import abs_models
+    M = abs_models() + [
         (R(r"^<(?:\[u8; \d+\]|\[u8\]|Vec<u8>) as Index(?:Mut)?<(?:std::ops::)?(?P<kind>Range|RangeTo|RangeFrom|RangeFull|RangeInclusive)(?:<usize>)?>>::index(?:_mut)?$"), m_index_range),
         (R(r"^core::slice::<impl \[u8\]>::copy_from_slice$"), m_copy_from_slice),
         (R(r"^core::slice::<impl \[u8\]>::fill$"), m_fill),
@@ -673,6 +737,7 @@ def build_models():
         (R(r"^std::vec::from_elem::<u8>$"), m_from_elem_u8),
         (R(r"^<usize as Ord>::min$|^<u64 as Ord>::min$|^core::cmp::min::<u(size|64)>$|^usize::min$"), m_min),
         (R(r"^<usize as Ord>::max$|^<u64 as Ord>::max$"), m_max),
+        (R(r"^core::num::<impl (?P<t>[ui]\w+)>::(?P<m>wrapping_add|wrapping_sub|wrapping_mul|saturating_add|saturating_sub|saturating_mul|checked_add|checked_sub|checked_mul|overflowing_add|overflowing_sub|overflowing_mul)$"), m_int_method),
         (R(r"^<.* as Try>::branch$"), m_try_branch),
         (R(r"^<.* as FromResidual<.*>>::from_residual$"), m_from_residual),
         (R(r"^std::result::Result::<.*>::is_err$"), m_is_err),
